@@ -60,8 +60,8 @@ def finish (d : DS) (c : Conn) (res : String) : DS × String :=
   | some site => ({ d with c := c }, s!"= crash {repr site}")
   | none =>
     let tx := if c.tx.isEmpty then "-" else
-      ",".intercalate (c.tx.map fun (it, s) => showItem it ++ (if s then "/s" else "/p"))
-    let ev := if c.evs.isEmpty then "-" else ",".intercalate (c.evs.map showEv)
+      ",".intercalate (c.tx.map fun r => showItem r.item ++ (if r.sec then "/s" else "/p"))
+    let ev := if c.evs.isEmpty then "-" else ",".intercalate (c.evs.map fun e => showEv e.2)
     let tail := if d.released then "st - neg 0 sec 0 q 0"
       else
         let bt (x : Bool) := if x then "1" else "0"
